@@ -9,7 +9,7 @@
    what the property text asks for (Spec.v). *)
 From Coq Require Import List NArith Arith Bool.
 From Verif.Common Require Import Prefix.
-From Verif.C43 Require Import Model Spec Proofs Final FinalProofs Order.
+From Verif.C43 Require Import Model Spec Proofs Final FinalProofs Blackhole MgrProofs Order.
 Import ListNotations.
 Open Scope N_scope.
 
@@ -47,6 +47,24 @@ Theorem c43_blackhole_excludes_local_wep : forall d c r T, wfp 32 c ->
   desired d c = Some r -> mgr_local_block T c r = true -> ~ In c (wep_addrs d) /\ plen c <> 32%nat.
 Proof. exact blackhole_excludes_local_wep. Qed.
 Print Assumptions c43_blackhole_excludes_local_wep.
+
+(* Local blocks get blackhole routes: on every admitted state a local block that is not a /32, that no local
+   workload address covers, inside a routed pool, is blackholed by that pool's manager. *)
+Theorem c43_local_blocks_blackholed : forall d b p, valid_state d = true ->
+  In b (local_blocks d) -> plen b <> 32%nat ->
+  (forall w, In w (wep_addrs d) -> covers 32 w b = false) ->
+  pool_of d b = Some p -> encap_of p <> NotRouted ->
+  exists r, desired d b = Some r /\ mgr_local_block (mgr_of (encap_of p)) b r = true.
+Proof. exact local_blocks_blackholed. Qed.
+Print Assumptions c43_local_blocks_blackholed.
+
+(* Order independence of the MANAGER stage: after ANY stream of RouteUpdate / RouteRemove messages (re-sent,
+   reordered, withdrawn) routesByDest and localIPAMBlocks are exactly the kept routes of the route set the
+   stream amounts to. *)
+Theorem c43_mgr_state_function_of_route_set : forall T msgs,
+  mgr_agrees T (fold_left (mgr_on_update T) msgs (mkM [] [])) (fold_left acc_msg msgs []).
+Proof. exact mgr_state_function_of_route_set. Qed.
+Print Assumptions c43_mgr_state_function_of_route_set.
 
 (* routeManager.updateRoutes on any kept RouteUpdate: parent-device (direct) target exactly when the manager
    is the no-encap one or the update is flagged SameSubnet, and the owner's address is known. *)
